@@ -61,7 +61,9 @@ NEW_BLOCKS = [["entry", "misc", "new1", [["x", "{1}"]], "@misc{new1}"], ["expl",
               ["entry", "article", "k1", [], None], ["string", "me", "{other}", None]]
 COLL_KINDS = ["list", "tuple", "deque"]
 NONBLOCK_COLL = ["str", "bytes", "range", "dict", "set", "frozenset"]
-OTHER_KINDS = ["gen", "iter", "int", "object", "true", "field", "library", "map", "float"]
+# non-block results, incl. FALSY ones that are neither None nor an empty collection (False, 0, 0.0, an object with __bool__ False)
+OTHER_KINDS = ["gen", "iter", "int", "object", "true", "field", "library", "map", "float", "false", "zero", "zerofloat", "falsyobj",
+               "emptygen"]
 
 
 # ------------------------------------------------------------------ generators
@@ -304,6 +306,16 @@ def probes():
             return 1.5
         if kind == "true":
             return True
+        if kind == "false":
+            return False
+        if kind == "zero":
+            return 0
+        if kind == "zerofloat":
+            return 0.0
+        if kind == "falsyobj":
+            return _Falsy()
+        if kind == "emptygen":
+            return (x for x in [])
         if kind == "object":
             return object()
         if kind == "field":
@@ -311,6 +323,10 @@ def probes():
         if kind == "library":
             return Library([block])
         raise ValueError(kind)
+
+    class _Falsy:
+        def __bool__(self):
+            return False
 
     class BlkProbe(BlockMiddleware):
         def __init__(self, k, inplace, specs):
